@@ -174,5 +174,73 @@ PROPS['C14'] = Prop(
                                  'ast.literal_eval stub outcome set; % raises only KeyError under well-formed placeholders'],
 )
 
+PROPS['C09'] = Prop(
+    functions=['policy:Enforcer.set_rules'],
+    bounded=[('bounded.loader', 'c09')],
+    level='other',
+    technique='bounded stand-in for the load sequence (the loader contracts over the ghost file system are not closed); set_rules proved deductively',
+    explanation='BOUNDED: random layer assignments (defaults, main file, up to three policy directories with sort-order, '
+                'dot-file, sub-directory and missing-directory cases; JSON/YAML per file) against the layering oracle, '
+                'and the complete table for the choice of the policy file. PROVED: set_rules replaces / updates the '
+                'store exactly as specified.',
+    assumptions=['bounded for the top-level clause', 'JSON and YAML spellings are compared through the real parsers only on the generated files'],
+)
+
+PROPS['C10'] = Prop(
+    functions=['policy:Enforcer.set_rules'],
+    bounded=[('bounded.loader', 'c10')],
+    level='other',
+    technique='bounded stand-in: exhaustive short and random long file-operation histories on real files with a controlled clock; set_rules proved deductively',
+    explanation='BOUNDED: all histories of length <= 3 (quick) / 4 (thorough) over {write, empty, delete} x {main file, '
+                'directory file} + load, and random histories up to 14 steps over all operations and four files, plain and '
+                'deprecated defaults, starting with and without a main file; after every load/enforce the long-lived rule '
+                'store is compared with a fresh enforcer. No clause is proved beyond set_rules.',
+    assumptions=['every change advances modification times of the file and of its directory (the property\'s own assumption)',
+                 'removing a whole policy directory after it was loaded is outside the statement'],
+)
+
+PROPS['C11'] = Prop(
+    functions=['policy:Enforcer._handle_deprecated_rule'],
+    bounded=[('bounded.loader', 'c11')],
+    level='other',
+    technique='contract-based deductive verification of _handle_deprecated_rule (own VC generator + z3) + complete enumeration of the table through load_rules/enforce',
+    explanation='PROVED for all inputs: _handle_deprecated_rule returns the old-name override unless it is the alias or a '
+                'new-name override exists, else a FRESH Or[new, old] only when enforce_new_defaults is off and the check '
+                'strings differ, else the new default; it writes no pre-existing object. ENUMERATED COMPLETELY: the '
+                'documented table (5120 rows incl. two new policies sharing one predecessor, override in main file or '
+                'directory) through the real load and enforce.',
+    assumptions=COMMON_ASSUME + ['str(check) is pr(check)', 'an old-name override textually equal to the deprecated default is left unconstrained'],
+)
+
+PROPS['C12'] = Prop(
+    functions=['policy:Enforcer._handle_deprecated_rule', '_checks:AndCheck.add_check', '_checks:OrCheck.add_check'],
+    bounded=[('bounded.loader', 'c12')],
+    level='other',
+    technique='contract-based frame obligations on the merging function (own VC generator + z3) + bounded interleavings for idempotence',
+    explanation='PROVED: _handle_deprecated_rule writes nothing that existed before the call (frame obligation on every '
+                'heap write) and the merged Or node and its operand list are freshly allocated with exactly two operands; '
+                'add_check appends in place to exactly its own list (so calling it on a default\'s check is a visible '
+                'write). BOUNDED: k loads versus one load across up to three enforcers sharing default objects, with '
+                'snapshots of the shared objects.',
+    assumptions=COMMON_ASSUME + ['copy.deepcopy at registration is not under contract in this revision (covered by the stand-in)'],
+)
+
+PROPS['C20'] = Prop(
+    functions=['policy:Enforcer.set_rules'],
+    bounded=[('bounded.loader', 'c20')],
+    level='other',
+    technique='contract-based sufficient condition (single publication of the rule store, discharged for set_rules) + replayed schedules: one preemption at every source-line boundary of a reload',
+    explanation='Contracts have no schedule quantifier. What is PROVED is a sequential sufficient condition on set_rules: '
+                'in overwrite mode the shared store is replaced by one assignment of a finished Rules object and no '
+                'published store is written in place. The same condition does NOT hold for load_rules as a whole (known '
+                'finding: directories are merged in place and defaults are added one by one). REPLAYED SCHEDULES '
+                '(bounded): the reload is stopped at every line boundary inside the library and a complete enforce() '
+                'runs on the same enforcer; a decision that matches neither the old nor the new policy is a violation, '
+                'identified by scenario. Scenarios with the known in-place rebuild are listed as known findings; the '
+                'main-file-only reload must stay atomic.',
+    assumptions=['CPython interpreter lock: attribute store/load are atomic; one context switch per run',
+                 'sufficient condition only: a failed publication obligation is reported as a violation only with a replayed schedule'],
+)
+
 for _pid in PROPS:
     NOT_APPLICABLE.pop(_pid, None)
